@@ -198,6 +198,9 @@ func (s *V2Session) buildAndSend(ctx context.Context, c ipmi.Command) error {
 		if err := types.InnermostEquals(ipmi.LayerTypeMessage); err != nil {
 			return err
 		}
+		if err := s.validateWrapper(); err != nil {
+			return err
+		}
 		code := s.messageLayer.CompletionCode
 		// must increment here, otherwise we'll miss temporary codes at the
 		// higher levels
@@ -212,6 +215,29 @@ func (s *V2Session) buildAndSend(ctx context.Context, c ipmi.Command) error {
 		return err
 	}
 	return terminalErr
+}
+
+// validateWrapper ensures the session wrapper of the packet just decoded is one
+// the BMC could have sent us within this session. The session layer only
+// verifies the AuthCode of packets with the authenticated flag set, and only
+// passes encrypted packets through the confidentiality layer, so a packet with
+// those flags cleared would otherwise be accepted without either.
+func (s *V2Session) validateWrapper() error {
+	if s.IntegrityAlgorithm != ipmi.IntegrityAlgorithmNone &&
+		!s.v2SessionLayer.Authenticated {
+		return fmt.Errorf("received unauthenticated packet in a session with integrity algorithm %v",
+			s.IntegrityAlgorithm)
+	}
+	if s.ConfidentialityAlgorithm != ipmi.ConfidentialityAlgorithmNone &&
+		!s.v2SessionLayer.Encrypted {
+		return fmt.Errorf("received unencrypted packet in a session with confidentiality algorithm %v",
+			s.ConfidentialityAlgorithm)
+	}
+	if s.v2SessionLayer.ID != s.LocalID {
+		return fmt.Errorf("received packet for session %#x, ours is %#x",
+			s.v2SessionLayer.ID, s.LocalID)
+	}
+	return nil
 }
 
 func (s *V2Session) GetSystemGUID(ctx context.Context) ([16]byte, error) {
